@@ -498,7 +498,7 @@ impl Property for C06 {
             cx.count("t4_never_ending_bodies_not_run", 1);
             return;
         }
-        let inputs: &[&str] = if c.name == "T4" { &["5"] } else { &["5", "(:a = 1, :b = 2)"] };
+        let inputs: &[&str] = if c.name == "T4" { &["5", "0"] } else { &["5", "(:a = 1, :b = 2)"] };
         for iname in inputs.iter().cloned() {
             let input = input_by_name(iname);
             dyn_check::<SData>(cx, &e, iname, &input);
